@@ -47,6 +47,7 @@ type Contract struct {
 	Refines  string
 	NoSafety bool
 	Auto     bool
+	DecoderFrame bool // frame = syntactic mod-set, except decoder state which changes only at the decoder parameters
 	PerReturn bool // check the ensures clauses at every return statement instead of once at the merged exit
 	AutoInv  *Clause // clause used as invariant of every loop (sweep)
 	CallSites map[string][]*Clause // callee name -> obligations / ghost effects at every call of it inside this function
@@ -315,6 +316,8 @@ func (p *Prog) loadContractFile(path string) error {
 			cur.NoSafety = true
 		case line == "per_return":
 			cur.PerReturn = true
+		case line == "decoder_frame":
+			cur.DecoderFrame = true
 		case strings.HasPrefix(line, "refines "):
 			cur.Refines = prefix + strings.TrimSpace(line[len("refines "):])
 		case strings.HasPrefix(line, "define "):
